@@ -210,7 +210,7 @@ def c05(res):
     q = res.tier == "quick"
     wd = workdir("C05-%s" % res.tier)
     # design level
-    mc_jobmarket(res, ["JobMarket_2w", "JobMarket_2w_timeout", "JobMarket_1w_timeout"] + ([] if q else ["JobMarket_3w_timeout"]))
+    mc_jobmarket(res, ["JobMarket_2w", "JobMarket_2w_timeout", "JobMarket_1w_timeout"] + ([] if q else ["JobMarket_3w_timeout", "JobMarket_3w_timeout_b1"]))
     asis_must_fail(res)
     # scripted scenarios against the bare broker
     scs = gen_scenarios(rng, 400 if q else 6000)
